@@ -296,7 +296,12 @@ def selection_order(ctx, prog, rule):
             # is_some() true edge returns without reaching the fallback
             Rb = Resolver(body)
             early = False
-            for sw, some_s, none_s in option_tests(body, Rb, lambda a: a[0] == "call" and a[1] == P + "from_limits"):
+            def _is_limits_result(a):
+                # the Option that from_limits produced, possibly merged with literal None alternatives on the way
+                alts = [strip(x) for x in (a[1] if a[0] == "phi" else (a,))]
+                alts = [x for x in alts if not (x[0] == "agg" and x[1][0] == "adt" and x[1][2] == "None")]
+                return bool(alts) and all(x[0] == "call" and x[1] == P + "from_limits" for x in alts)
+            for sw, some_s, none_s in option_tests(body, Rb, _is_limits_result):
                 early = not any(x in reach(body.cfg(), [some_s]) for x in fb)
             oko = not back and early
         ctx.ob(rule, "limits-before-type/%s" % fld, oko, "limits are consulted first and the data-type range is used only when they yield no range")
